@@ -125,6 +125,42 @@ def suite_isim(tier: str, seed: int, mult: int) -> SuiteResult:
         for _ in range((300 if tier == "quick" else 5000) * mult):
             ks, n = gen_counts(rng, True)
             check_counts(ks, n, "random_big")
+        # from-sum forms on sums held in the NARROWEST dtype (as the tree holds them), counts at the width boundaries
+        from bblean.utils import min_safe_uint as _msu
+        cnt["narrow_dtype"] = 0
+        for _ in range((300 if tier == "quick" else 4000) * mult):
+            n = rng.choice([2, 3, 127, 128, 129, 200, 254, 255, 256, 257, 1000, 65534, 65535, 65536])
+            w = rng.randint(1, 10)
+            ks = [rng.choice([0, n, n, n // 2, (n + 1) // 2, rng.randint(0, n)]) for _ in range(w)]
+            ls = np.asarray(ks, dtype=_msu(n))
+            cnt["narrow_dtype"] += 1
+            res.evaluations += 1
+            outs = []
+            for name, fn in (("isim", sim.jt_isim_from_sum), ("radius_compl", sim.jt_isim_radius_compl_from_sum),
+                             ("radius", sim.jt_isim_radius_from_sum), ("diameter", sim.jt_isim_diameter_from_sum)):
+                try:
+                    outs.append(fval(fn(ls, n)))
+                except Exception as e:  # noqa: BLE001
+                    outs.append(err_name(e))
+            cen = np.asarray(sim.centroid_from_sum(ls, n, pack=True)).tobytes().hex()
+            m_isim = d.cmd(f"ISIM n={n} ks={show_nats(',', ks)}")
+            m_rc = d.cmd(f"RC n={n} ks={show_nats(',', ks)}")
+            m_cen = d.cmd(f"CENT n={n} ks={show_nats(',', ks)}")
+            want = [m_isim, m_rc]
+            if outs[:2] != want or cen != m_cen:
+                if res.disagreement is None:
+                    res.disagreement = {"what": "from-sum forms on narrow dtype", "n": n, "ks": ks, "dtype": str(ls.dtype),
+                                        "model": want + [m_cen], "impl": outs + [cen]}
+            # oracle: same value as on uint64 sums (the defining identity does not depend on the counter width)
+            ls64 = ls.astype(np.uint64)
+            ref = [fval(sim.jt_isim_from_sum(ls64, n)), fval(sim.jt_isim_radius_compl_from_sum(ls64, n))]
+            if outs[:2] != ref:
+                res.failures.append({"signature": "C11:from-sum-value-depends-on-the-dtype-of-the-sums",
+                                     "what": f"n={n} dtype={ls.dtype}: {outs[:2]} vs uint64 {ref}", "case": {"n": n, "ks": ks}})
+            maj = (2 * ls64 >= n) if n > 1 else (ls64 != 0)
+            if cen != np.packbits(maj.astype(np.uint8)).tobytes().hex():
+                res.failures.append({"signature": "C12:centroid-not-majority-on-narrow-dtype-sums",
+                                     "what": f"n={n} dtype={ls.dtype}", "case": {"n": n, "ks": ks}})
         # wrappers on fingerprint arrays, packed and unpacked, any feature count
         for _ in range((150 if tier == "quick" else 2000) * mult):
             F = rng.choice(list(range(1, 20)) + [63, 64, 65])
@@ -277,17 +313,17 @@ def suite_bits(tier: str, seed: int, mult: int) -> SuiteResult:
                 if len(set(mw.split(" "))) != 1 and res.disagreement is None:
                     res.disagreement = {"what": "popcount words vs bytes (model)", "bytes": P.tobytes().hex(), "model": mw}
         # matrix, most dissimilar, centroid from sum
-        for _ in range((150 if tier == "quick" else 2500) * mult):
+        for it in range((150 if tier == "quick" else 2500) * mult):
             F = rng.choice(list(range(1, 30)) + [64, 65, 100])
-            n = rng.randint(1, 7)
+            n = rng.randint(1, 7) if it % 10 else rng.choice([255, 256, 257, 300])
             dens = rng.choice([0.0, 0.2, 0.5, 0.9])
             rows = [[1 if rng.random() < dens else 0 for _ in range(F)] for _ in range(n)]
             if rng.random() < 0.3 and n > 1:
                 rows[rng.randrange(n)] = list(rows[0])
             X = np.packbits(np.asarray(rows, dtype=np.uint8).reshape(n, F), axis=1)
             cnt["matrix"] += 1
-            M = sim.jt_sim_matrix_packed(X)
-            for i in range(n):
+            M = sim.jt_sim_matrix_packed(X) if n <= 8 else np.ones((0, 0))
+            for i in range(n if n <= 8 else 0):
                 for j in range(n):
                     want = 1.0 if i == j else float(sim.jt_sim_packed(X[i], X[j]))
                     if float(M[i, j]) != want:
@@ -317,6 +353,15 @@ def suite_bits(tier: str, seed: int, mult: int) -> SuiteResult:
                 res.disagreement = {"what": "centroid_from_sum", "n": n, "ks": ls.tolist(), "model": mc, "impl": c.tobytes().hex()}
             if c.tobytes() != np.packbits(maj.astype(np.uint8)).tobytes():
                 res.failures.append({"signature": "C12:centroid-not-majority-with-ties-set", "what": f"n={n}", "case": {"F": F, "rows": rows}})
+            # the same on sums held in the narrowest dtype, at counts around the width boundaries
+            nn = rng.choice([127, 128, 200, 255, 256, 65535])
+            kk = [rng.choice([0, nn, nn // 2, (nn + 1) // 2, rng.randint(0, nn)]) for _ in range(rng.randint(1, 12))]
+            lsn = np.asarray(kk, dtype=min_safe_uint(nn))
+            cn = sim.centroid_from_sum(lsn, nn, pack=True)
+            majn = 2 * np.asarray(kk, dtype=np.uint64) >= nn
+            if cn.tobytes() != np.packbits(majn.astype(np.uint8)).tobytes():
+                res.failures.append({"signature": "C12:centroid-not-majority-on-narrow-dtype-sums", "what": f"n={nn} dtype={lsn.dtype}",
+                                     "case": {"n": nn, "ks": kk}})
             if len(res.samples) < 2:
                 res.samples.append({"F": F, "rows": [row_hex(r) for r in rows], "dissim": mv[:80]})
     finally:
